@@ -74,13 +74,15 @@ class Rel(object):
         return Rel(self.pairs, self.pmax, self.tmax)
 
     def keep_packages(self, pred):
+        # a collection derived by choosing PACKAGES holds the tags of the chosen pairs and no others: a tag none of the
+        # kept packages carries is not a tag of the result ("tag counts agree with a relation holding the same pairs")
         return Rel({(p, t) for p, t in self.pairs if pred(p)},
-                   {p for p in self.pmax if pred(p)}, self.tmax)
+                   {p for p in self.pmax if pred(p)}, ())
 
     def keep_packages_tags(self, pred):
         fwd = self.fwd()
         keep = {p for p in self.pmax if pred((p, set(fwd.get(p, ()))))}
-        return Rel({(p, t) for p, t in self.pairs if p in keep}, keep, self.tmax)
+        return Rel({(p, t) for p, t in self.pairs if p in keep}, keep, ())
 
     def keep_tags(self, pred):
         return Rel({(p, t) for p, t in self.pairs if pred(t)},
@@ -88,7 +90,7 @@ class Rel(object):
 
     def choose(self, names):
         names = set(names)
-        return Rel({(p, t) for p, t in self.pairs if p in names}, self.pmax & names, self.tmax)
+        return Rel({(p, t) for p, t in self.pairs if p in names}, self.pmax & names, ())
 
     def map_tags(self, g):
         return Rel({(p, g(t)) for p, t in self.pairs}, self.pmax, {g(t) for t in self.tmax})
